@@ -9,6 +9,15 @@ NOTE_COMMON = ('Trusted base: clang 14 parser/sema/CFG builder; class-hierarchy 
 
 CHECKS = {
     # id: (technique, level text, undecided clauses)
+    'C01': ('CFG x DFA product for the Appendix-D phase order (history, exit, transition, enter, done) over classified callback/configuration events; loop-direction and container-origin extraction for every handler/state/transition loop; edge dominance and the exact flag relation for the dequeue priority; guard, typestate, interval-closedness and enumeration-discipline rules',
+            'Decides for every document at once that the default engine\'s step() follows the skeleton of the W3C algorithm: phases in order on every path, exit set in reverse and entry/transition sets in document order, eventless before internal before external events, block-level error containment, empty exit intervals never applied, bitsets never indexed after being shrunk, closed-interval comparisons, state kinds compared not masked, and no direct dependency on a data model. Thorough tier: same on the fast engine.',
+            'Not decided: the sets selection, entry-set completion and data handling compute for a given chart (values).'),
+    'C02': ('who-may-write rule for the configuration member(s); paired-update comparison of the two ordered views; within-iteration reachability from the pseudo-state kind tests to the configuration insert; origin of exit-set insertions; exhaustiveness of the completion switch against the kind codes assigned in init(); history update conditioned on the configuration',
+            'Decides the structural necessary conditions of a legal configuration in both engines: only the exit/enter phases, reset and deserialize write it, both ordered views are updated together, pseudo-states can never be inserted, only active states are exited, the root is never exited, every state kind has a completion arm, remembered history is a subset of what was active.',
+            'Not decided: legality of the configuration for every chart and history (needs the entry-set values).'),
+    'C03': ('sibling cross-check: the complete fact vector of one engine (event alphabet and site counts, phase and monitor protocol verdicts, loop directions per site, exact _flags relation as a set of tuples, containment status per callback site, reset coverage, serialization keys) compared for equality with the other engine\'s; registration table extraction',
+            'Decides that an edit to one engine that is not mirrored in the other shows up as a named fact difference, and that both engines are registered under distinct names with the large engine as default. The fast engine is never run by the test suite; here it is analysed like any other source.',
+            'Not decided: equality of traces per input.'),
     'C07': ('typed exception-flow fix-point over the whole-program call graph (CHA, handler liveness, library-thrower table), containment check at every engine callback site and at every thread root / C callback, CFG path query through each catch(ErrorEvent) handler, re-entrancy check of enqueue-and-rethrow handlers, dominance of fault guards',
             'Decides for all documents at once that no exception of a repository type can leave step() from a callback site or leave a thread root of the interpreter core, that every ErrorEvent handler on the executable-content path raises the error event on every path exactly once, that a failing block skips only itself, and that the anchored arithmetic/index faults are guarded.',
             'Not decided: out-of-bounds inside third-party C code; exceptions thrown by user-supplied monitors or by library calls outside the library-thrower table.'),
